@@ -24,9 +24,14 @@ def all_enforced_problem(rng):
     """only constraints presumed enforced by the mutation space (overlapping / nested / contradictory): resolve_constraints
     returns early, so the result rests on the space construction alone"""
     from gen import hard
-    seq, descs = hard.rand_problem(rng, nmin=4, nmax=16, kmax=4, kinds=["keep", "keep_idx", "cds", "sequence", "choice", "change"])
-    if rng.random() < 0.5:
-        seq = hard.rand_seq(rng, len(seq))
+    from props import C04
+    for _ in range(20):
+        seq, descs = hard.rand_problem(rng, nmin=4, nmax=16, kmax=4, kinds=["keep", "keep_idx", "cds", "sequence", "choice", "change"])
+        if rng.random() < 0.5:
+            seq = hard.rand_seq(rng, len(seq))
+        # start-codon policies that contradict the table / the requested translation are ill-formed input (see C04)
+        if C04.wellformed(descs, seq):
+            break
     return dict(sequence=seq, constraints=descs, objectives=[], settings=problems.rand_settings(rng), np_seed=rng.randint(0, 10 ** 6))
 
 
